@@ -104,6 +104,11 @@ def classify(diags, w):
         clause = None
         site_sp = None
         for sp in d.get("spans", []):
+            # a span inside a macro expansion (matches!, vec!, ...) -> use the macro call site
+            lab0, prim0 = sp.get("label"), sp.get("is_primary")
+            while sp.get("expansion") and sp["expansion"].get("span"):
+                sp = dict(sp["expansion"]["span"])
+                sp["label"], sp["is_primary"] = lab0, prim0
             c = _clause_at(w.clauses, sp["line_start"], sp["line_end"])
             lab = sp.get("label") or ""
             if c is not None and ("failed" in lab or site_sp is not None or not sp.get("is_primary")
